@@ -120,11 +120,19 @@ def replay_triangle(n, a=None, b=None):
 def _z3_expr(node, env):
     import z3
 
+    def truth(v):
+        # Python truthiness of an integer
+        if isinstance(v, int) and not isinstance(v, bool):
+            return z3.BoolVal(v != 0)
+        if z3.is_expr(v) and z3.is_int(v):
+            return v != 0
+        return v
+
     if isinstance(node, ast.BoolOp):
-        vals = [_z3_expr(v, env) for v in node.values]
+        vals = [truth(_z3_expr(v, env)) for v in node.values]
         return z3.Or(*vals) if isinstance(node.op, ast.Or) else z3.And(*vals)
     if isinstance(node, ast.UnaryOp) and isinstance(node.op, ast.Not):
-        return z3.Not(_z3_expr(node.operand, env))
+        return z3.Not(truth(_z3_expr(node.operand, env)))
     if isinstance(node, ast.UnaryOp) and isinstance(node.op, ast.USub):
         return -_z3_expr(node.operand, env)
     if isinstance(node, ast.Compare):
@@ -154,13 +162,37 @@ def ob_range(modname, lo, hi):
     fd = ast.parse(textwrap.dedent(inspect.getsource(mod.rule))).body[0]
     stmts = [s for s in fd.body if not (isinstance(s, ast.Expr) and isinstance(s.value, ast.Constant))]
     first = stmts[0]
+    argname = fd.args.args[0].arg
+    if (isinstance(first, ast.Assign) and isinstance(first.value, ast.Call) and isinstance(first.value.func, ast.Name) and len(first.value.args) == 1
+            and isinstance(first.value.args[0], ast.Name) and first.value.args[0].id == argname and callable(getattr(mod, first.value.func.id, None))):
+        # the guard may live in a helper of the same module that is called first with the order: follow the call (one level)
+        hd = ast.parse(textwrap.dedent(inspect.getsource(getattr(mod, first.value.func.id)))).body[0]
+        hst = [s_ for s_ in hd.body if not (isinstance(s_, ast.Expr) and isinstance(s_.value, ast.Constant))]
+        if hst and isinstance(hst[0], ast.If):
+            first, argname = hst[0], hd.args.args[0].arg
     if not (isinstance(first, ast.If) and len(first.body) == 1 and isinstance(first.body[0], ast.Raise) and not first.orelse):
-        return undecided("rule() does not start with `if <test>: raise`")
+        # shape outside the fragment: decided natively over a window of orders if a failing order exists, otherwise undecided
+        for o in list(range(-70, 71)) + [10 ** 6, -10 ** 6]:
+            native = replay_range(modname, o, lo, hi)
+            if native["violates"]:
+                return violated("%s.rule(%d): rejected=%s but required rejected=%s" % (modname, o, native["rejected"], not (lo <= o <= hi)), witness={"order": o},
+                                replay={"callable": "checks.c12:replay_range", "kwargs": {"modname": modname, "order": o, "lo": lo, "hi": hi}, "confirmed": True, "result": native},
+                                signature=modname + "/range")
+        return undecided("rule() does not start with `if <test>: raise` (native sweep over orders -70..70 found no wrongly accepted / rejected order)")
     exc = first.body[0].exc
     if not (isinstance(exc, ast.Call) and isinstance(exc.func, ast.Name) and exc.func.id == "ValueError"):
         return violated("out-of-range orders are not rejected with ValueError", signature=modname + "/range")
     order = z3.Int("order")
-    test = _z3_expr(first.test, {fd.args.args[0].arg: order})
+    try:
+        test = _z3_expr(first.test, {argname: order, **{k: v for k, v in vars(mod).items() if isinstance(v, int) and not isinstance(v, bool)}})
+    except S.Undecided as ex:
+        for o in list(range(-70, 71)) + [10 ** 6, -10 ** 6]:
+            native = replay_range(modname, o, lo, hi)
+            if native["violates"]:
+                return violated("%s.rule(%d): rejected=%s but required rejected=%s" % (modname, o, native["rejected"], not (lo <= o <= hi)), witness={"order": o},
+                                replay={"callable": "checks.c12:replay_range", "kwargs": {"modname": modname, "order": o, "lo": lo, "hi": hi}, "confirmed": True, "result": native},
+                                signature=modname + "/range")
+        return undecided("range test outside the integer-comparison fragment (%s); native sweep over orders -70..70 found no wrongly accepted / rejected order" % ex)
     s = z3.Solver()
     s.set("timeout", 10000)
     s.add(test != z3.Or(order < lo, order > hi))
